@@ -3,6 +3,7 @@ import Tickit.Proof.EvLoopOnceB
 import Tickit.Proof.EvLoopOnceIter
 import Tickit.Gen.EvLoop
 import Tickit.Proof.EvLoopUnbind
+import Tickit.Proof.EvLoopUnbindOnce
 /-
   C17 — Timers and deferred callbacks run once, on time, in order, unless cancelled.
 
@@ -459,14 +460,136 @@ theorem unbind_handler_registrations_run :
       [.cb 5 3 .none, .cb 1 3 .none] :=
   ⟨unbind_handler_timer_between_is_queued.1, unbind_handler_timer_between_runs, unbind_handler_later_first_runs.2⟩
 
-/-- Open: the full statement for active unbind handlers — every timer / deferred callback a handler registers runs
-    exactly once in a later iteration — for all histories (the exactly-once theorems above are about histories whose
-    notifications are passive; Model/EvLoopUnbind.lean is tied to the code by differential execution). -/
-def unbind_handler_registration_runs_once : Prop :=
-  ∀ (ub : List Beh) (st : St) (k n : Int) (sec usec : Int) (f : Nat),
-    st.isOk = true → unbindActs ub k = [.timerAt n sec usec f] → findSlot st n = none → 0 ≤ n → n < MAXW → 0 ≤ usec →
-    (∃ r, findSlot st k = some r ∧ st.timers.contains r.handle = true ∧ (st.getW r.handle).flags &&& BIND_UNBIND ≠ 0 ∧
-          (st.getW r.handle).slot = k) →
-    (doCancelU ub st k).timers.contains st.heap.length = true
+/-! ### unbind handlers that act: what the handler registered runs exactly once -/
+
+/-- A top-level cancel whose unbind handler acts keeps everything the exactly-once theorems rest on: the five watch
+    lists well formed, the slot table, at-most-once, "allocated ⇒ queued", "gone ⇒ invoked or cancel asked" (the bundle
+    `B []`) and the order of the timer queue — from every state that has them, for every handler. -/
+theorem cancel_with_acting_unbind_handler_keeps_invariants (ub : List Beh) (st : St) (k : Int) (b : B [] st) (q : QInv st) :
+    B [] (applyCancelU ub st k) ∧ QInv (applyCancelU ub st k) :=
+  ⟨b_applyCancelU ub st k b, qinv_applyCancelU ub st k q⟩
+
+/-- … so every state of every history in which top-level cancels find acting unbind handlers (`UOp`, `runUOps`:
+    Model/EvLoopUnbind.lean) has them, under the repaired source. -/
+theorem invariants_with_acting_unbind_handlers (ops : List UOp) (hok : (runUOps .repaired ops).status = .ok) :
+    B [] (runUOps .repaired ops) ∧ QInv (runUOps .repaired ops) :=
+  ⟨b_runUOps _ repaired_is_rep ops hok, qinv_runUOps _ ops⟩
+
+/-- When `tickit_watch_cancel` (made from outside any callback) returns, every timer and every deferred callback its
+    unbind handler registered is allocated, has not been invoked, and is in its queue — for every history, every handler
+    (`ub`: any list of actions — registrations of every kind, also `BIND_FIRST`, raises, errno), wherever in the queue
+    the new watch landed.  (Composes `cancel_keeps_what_unbind_handler_queued` / `cancel_unlinks_before_unbind_handler`'s
+    shape of the C text — unlink, handler, hook, free — with the bundle.) -/
+theorem unbind_handler_registration_is_queued (ops : List UOp) (ub : List Beh) (k : Int)
+    (hok0 : (runUOps .repaired ops).status = .ok) (hal : (runUOps .repaired ops).alive = true)
+    (hok1 : (runUOps .repaired (ops ++ [.cancelU ub k])).status = .ok) :
+    ∀ r ∈ (runUOps .repaired (ops ++ [.cancelU ub k])).slots, (runUOps .repaired ops).heap.length ≤ r.handle →
+      r.k ∉ (runUOps .repaired (ops ++ [.cancelU ub k])).cancelReq →
+      isOneShot ((runUOps .repaired (ops ++ [.cancelU ub k])).getW r.handle).type = true →
+      (runUOps .repaired (ops ++ [.cancelU ub k])).live r.handle = true ∧ r.fires = 0 ∧
+      (((runUOps .repaired (ops ++ [.cancelU ub k])).getW r.handle).type = .timer →
+        r.handle ∈ (runUOps .repaired (ops ++ [.cancelU ub k])).timers) ∧
+      (((runUOps .repaired (ops ++ [.cancelU ub k])).getW r.handle).type = .later →
+        r.handle ∈ (runUOps .repaired (ops ++ [.cancelU ub k])).laters) := by
+  rw [runUOps_snoc] at hok1 ⊢
+  exact unbind_registered_is_queued ub _ k (b_runUOps _ repaired_is_rep ops hok0) hal hok1
+
+/-- Exactly once.  A timer registered by the unbind handler of a watch cancelled from outside any callback that is due
+    when the timer phase of the next iteration starts, and a deferred callback registered by such a handler — if no cancel
+    is asked for it by the time that iteration ends — has not been invoked when the cancel returns, is in its queue
+    then, is gone (released) when the iteration ends, and its count of FIRE invocations is then exactly 1: for every
+    history (earlier cancels with acting handlers included), every handler, whatever the other callbacks of the
+    iteration do.  (`unbind_handler_registration_is_queued` composed with `exactly_once_iteration`'s two halves,
+    `timer_once_in_iteration` / `later_once_in_iteration`, which hold from every state with the bundle.) -/
+theorem unbind_handler_registration_runs_once (ops : List UOp) (ub : List Beh) (k : Int) (op : Op) (nohang : Bool)
+    (hop : (op = .tick ∧ nohang = true) ∨ (op = .tickhang ∧ nohang = false))
+    (hok0 : (runUOps .repaired ops).status = .ok) (hal : (runUOps .repaired ops).alive = true)
+    (hok1 : (runUOps .repaired (ops ++ [.cancelU ub k])).status = .ok)
+    (hok2 : (runUOps .repaired ((ops ++ [.cancelU ub k]) ++ [.op op])).status = .ok) :
+    ∀ r ∈ (runUOps .repaired (ops ++ [.cancelU ub k])).slots, (runUOps .repaired ops).heap.length ≤ r.handle →
+      r.k ∉ (runUOps .repaired ((ops ++ [.cancelU ub k]) ++ [.op op])).cancelReq →
+      ((((runUOps .repaired (ops ++ [.cancelU ub k])).getW r.handle).type = .timer ∧
+          ((runUOps .repaired (ops ++ [.cancelU ub k])).getW r.handle).due.gt
+            (TV.ofUs (phaseClock (afterCancelU ub (runUOps .repaired ops) k) nohang)) = false) ∨
+        ((runUOps .repaired (ops ++ [.cancelU ub k])).getW r.handle).type = .later) →
+      r.fires = 0 ∧
+      (r.handle ∈ (runUOps .repaired (ops ++ [.cancelU ub k])).timers ∨
+        r.handle ∈ (runUOps .repaired (ops ++ [.cancelU ub k])).laters) ∧
+      (runUOps .repaired ((ops ++ [.cancelU ub k]) ++ [.op op])).live r.handle = false ∧
+      ∃ r' ∈ (runUOps .repaired ((ops ++ [.cancelU ub k]) ++ [.op op])).slots, r'.k = r.k ∧ r'.handle = r.handle ∧ r'.fires = 1 := by
+  have b := b_runUOps _ repaired_is_rep ops hok0
+  have he : runUOps .repaired ((ops ++ [.cancelU ub k]) ++ [.op op]) =
+      tick defaultFuel (afterCancelU ub (runUOps .repaired ops) k) nohang := by
+    rw [runUOps_snoc, runUOps_snoc]
+    show applyOp (applyCancelU ub (runUOps .repaired ops) k) op = _
+    rw [runUOps_snoc] at hok1
+    have hokb : (applyCancelU ub (runUOps .repaired ops) k).isOk = true := (St.isOk_iff _).mpr hok1
+    have hal1 : (applyCancelU ub (runUOps .repaired ops) k).alive = true :=
+      (r2_applyCancelU ub _ k b.k).alive.trans hal
+    have hok1' : (!({ applyCancelU ub (runUOps .repaired ops) k with log := [] } : St).isOk) ≠ true := by
+      show (!(applyCancelU ub (runUOps .repaired ops) k).isOk) ≠ true
+      rw [hokb]; decide
+    have hal1' : (!({ applyCancelU ub (runUOps .repaired ops) k with log := [] } : St).alive) ≠ true := by
+      show (!(applyCancelU ub (runUOps .repaired ops) k).alive) ≠ true
+      rw [hal1]; decide
+    rcases hop with ⟨h, hn⟩ | ⟨h, hn⟩
+    · subst h; subst hn
+      unfold applyOp applyOp'
+      rw [if_neg hok1']; simp only []; rw [if_neg hal1']; rfl
+    · subst h; subst hn
+      unfold applyOp applyOp'
+      rw [if_neg hok1']; simp only []; rw [if_neg hal1']; rfl
+  rw [he] at hok2 ⊢
+  rw [runUOps_snoc] at hok1 ⊢
+  exact unbind_registered_runs_once defaultFuel ub _ k nohang b (qinv_runUOps _ ops) hal hok1 hok2
+
+/-- The hypotheses are met and the conclusion is not vacuous: timers 0, 1 (UNBIND), 2; the clock passes the first two
+    deadlines; `cancel 1` from outside, the handler of 1 registers timer 5 immediately in front of the place timer 1 had
+    and the deferred callback 6; one iteration: 5 and 6 (and 0) have run once, 2 is not due, 1 was cancelled. -/
+def probeUnbindOnce : List UOp :=
+  [.op (.act (.timerAt 0 1000 1000 6)), .op (.act (.timerAt 1 1000 5000 2)), .op (.act (.timerAt 2 1000 10000 0)), .op (.clock 5000)]
+def ubOnce : List Beh := [⟨1, 0, [.timerAt 5 1000 4999 2, .later 6 0]⟩]
+
+example : (runUOps .repaired probeUnbindOnce).heap.length = 5 ∧ (runUOps .repaired probeUnbindOnce).alive = true ∧
+    ((runUOps .repaired (probeUnbindOnce ++ [.cancelU ubOnce 1])).slots.map (fun r => (r.k, r.handle, r.fires))) =
+      [(0, 2, 0), (1, 3, 0), (2, 4, 0), (5, 5, 0), (6, 6, 0)] ∧
+    (runUOps .repaired (probeUnbindOnce ++ [.cancelU ubOnce 1])).timers = [2, 5, 4] ∧
+    (runUOps .repaired (probeUnbindOnce ++ [.cancelU ubOnce 1])).laters = [6] ∧
+    (runUOps .repaired ((probeUnbindOnce ++ [.cancelU ubOnce 1]) ++ [.op .tick])).status = .ok ∧
+    (runUOps .repaired ((probeUnbindOnce ++ [.cancelU ubOnce 1]) ++ [.op .tick])).cancelReq = [1] ∧
+    ((runUOps .repaired ((probeUnbindOnce ++ [.cancelU ubOnce 1]) ++ [.op .tick])).slots.map (fun r => (r.k, r.handle, r.fires))) =
+      [(0, 2, 1), (1, 3, 0), (2, 4, 0), (5, 5, 1), (6, 6, 1)] := by decide +kernel
+
+/-- The statement this round started from — membership of the handler's timer in the queue for *every* state `st`, not
+    only reachable ones — is false: a state whose slot table points at a freed watch makes `tickit_watch_cancel` read
+    freed memory before any handler runs.  (Kernel-checked; the theorems above quantify over the states histories reach.) -/
+theorem unbind_registration_needs_a_reachable_state :
+    ¬ (∀ (ub : List Beh) (st : St) (k n : Int) (sec usec : Int) (f : Nat),
+      st.isOk = true → unbindActs ub k = [.timerAt n sec usec f] → findSlot st n = none → 0 ≤ n → n < MAXW → 0 ≤ usec →
+      (∃ r, findSlot st k = some r ∧ st.timers.contains r.handle = true ∧ (st.getW r.handle).flags &&& BIND_UNBIND ≠ 0 ∧
+            (st.getW r.handle).slot = k) →
+      (doCancelU ub st k).timers.contains st.heap.length = true) := by
+  intro h
+  have := h [⟨0, 0, [.timerAt 1 0 0 0]⟩]
+    { cfg := .repaired, alive := true, heap := [{ freed := true, type := .timer, flags := 2, slot := 0 }], timers := [0],
+      slots := [⟨0, 0, 0⟩] } 0 1 0 0 0 (by decide) (by decide) (by decide) (by decide) (by decide) (by decide)
+    ⟨⟨0, 0, 0⟩, by decide, by decide, by decide, by decide⟩
+  revert this
+  decide
+
+/-- Open: that the handler's registration is *performed* — from a reachable state, `tickit_watch_cancel` of a queued
+    timer whose stored flags contain UNBIND reaches the handler without reading freed memory, and a handler whose one
+    action is `timerAt n …` (slot `n` unused) leaves a record for `n` whose watch is the fresh address, a timer.  (With
+    it, `unbind_handler_registration_is_queued` / `…_runs_once` apply to that record.  It is the no-UB statement of
+    this path: `no_ub_full` restricted to `tickit_watch_cancel` and `tickit_watch_timer_at_tv`.) -/
+def unbind_handler_registration_is_performed : Prop :=
+  ∀ (ops : List UOp) (ub : List Beh) (k n : Int) (sec usec : Int) (f : Nat),
+    (runUOps .repaired ops).status = .ok → (runUOps .repaired ops).alive = true →
+    unbindActs ub k = [.timerAt n sec usec f] → findSlot (runUOps .repaired ops) n = none → 0 ≤ n → n < MAXW → 0 ≤ usec →
+    (∃ r, findSlot (runUOps .repaired ops) k = some r ∧ r.handle ∈ (runUOps .repaired ops).timers ∧
+          ((runUOps .repaired ops).getW r.handle).flags &&& BIND_UNBIND ≠ 0) →
+    (runUOps .repaired (ops ++ [.cancelU ub k])).status = .ok ∧
+    ∃ r' ∈ (runUOps .repaired (ops ++ [.cancelU ub k])).slots, r'.k = n ∧ r'.handle = (runUOps .repaired ops).heap.length ∧
+      ((runUOps .repaired (ops ++ [.cancelU ub k])).getW r'.handle).type = .timer
 
 end Tickit.Props.C17
